@@ -245,3 +245,160 @@ func libraryStream(cv cvar, data []byte) (enc []byte) {
 	}
 	return append([]byte{}, buf.Bytes()...)
 }
+
+// ---- how the payload reaches a compressor ----
+//
+// The property quantifies over every chunking of writes. A compressor is an io.Writer, and some of them are
+// also an io.ReaderFrom (io.Copy(w, src) takes that path when src has no WriteTo; protocol's encoder does
+// exactly that with the Bytes of a record): then the chunking of the writes is whatever the SOURCE returns
+// from its Reads: any non-empty prefix of what is left, the last bytes possibly together with io.EOF.
+
+// plainReader hides every method of a reader but Read (bytes.Reader has a WriteTo, which io.Copy prefers)
+type plainReader struct{ r io.Reader }
+
+func (p plainReader) Read(b []byte) (int, error) { return p.r.Read(b) }
+
+func encoderSources() []srcMode {
+	srcs := []srcMode{{"all at once", func(d []byte) io.Reader { return plainReader{bytes.NewReader(d)} }}}
+	srcs = append(srcs, namedSources()...)
+	for _, c := range []int{3, 15, 17} {
+		c := c
+		srcs = append(srcs, srcMode{fmt.Sprintf("chunks-of-%d,last one with io.EOF", c), func(d []byte) io.Reader {
+			return iotest.DataErrReader(&fixedReader{bytes.NewReader(d), c})
+		}})
+	}
+	return srcs
+}
+
+// ways of handing a payload to a compressor
+const (
+	inWrite    = "Write"
+	inCopy     = "io.Copy(w, src)"
+	inReadFrom = "w.ReadFrom(src)"
+)
+
+func encodeSourceChunking(s *seqx.Suite, thorough bool) {
+	s.Begin("encode-x-source-chunking")
+	sizes := []int{1, 2, 15, 16, 17, 100, 1000, 32767, 32768, 32769, 65537, 100000}
+	patterns := []string{"zeros", "text", "random"}
+	type way struct {
+		in     string
+		wchunk int // inWrite: size of the Write calls (0: one piece)
+		src    *srcMode
+		prefix bool // the first half goes in by one Write, the rest through the source (non-empty block buffer)
+	}
+	var ways []way
+	for _, wc := range []int{0, 1, 3, 17, 1000} {
+		ways = append(ways, way{in: inWrite, wchunk: wc})
+	}
+	for _, in := range []string{inCopy, inReadFrom} {
+		for _, sm := range encoderSources() {
+			sm := sm
+			for _, prefix := range []bool{false, true} {
+				ways = append(ways, way{in: in, src: &sm, prefix: prefix})
+			}
+		}
+	}
+	for _, cv := range codecs() {
+		for _, n := range sizes {
+			for _, pat := range patterns {
+				if !thorough && n > 1000 && pat != "text" {
+					continue
+				}
+				data := payload(n, pat)
+				for _, wy := range ways {
+					if wy.in == inWrite && wy.wchunk == 1 && n > 1000 && !thorough {
+						continue
+					}
+					if wy.prefix && n < 2 {
+						continue
+					}
+					if s.TimeUp() {
+						return
+					}
+					cv, wy, data := cv, wy, data
+					desc := wy.in
+					if wy.in == inWrite {
+						desc += fmt.Sprintf(" in pieces of %d bytes (0: one piece)", wy.wchunk)
+					} else {
+						desc += " with a source that hands out the bytes as [" + wy.src.name + "]"
+						if wy.prefix {
+							desc += " after the first half was written by one Write"
+						}
+					}
+					id := fmt.Sprintf("%s n=%d %s %s", cv.name, n, pat, desc)
+					s.Case(id, id, func() (string, *seqx.Viol) {
+						vsync.ResetPools()
+						key := cv.name + ":enc-source"
+						fail := func(sig, f string, a ...any) (string, *seqx.Viol) {
+							return key, &seqx.Viol{Sig: cv.name + ":encode-source:" + sig,
+								Msg: fmt.Sprintf("%s writer given %d bytes by %s: ", cv.name, len(data), desc) + fmt.Sprintf(f, a...)}
+						}
+						var buf bytes.Buffer
+						w := cv.codec.NewWriter(&buf)
+						var count int64
+						var err error
+						switch wy.in {
+						case inWrite:
+							rest := data
+							for len(rest) > 0 && err == nil {
+								k := wy.wchunk
+								if k <= 0 || k > len(rest) {
+									k = len(rest)
+								}
+								var m int
+								m, err = w.Write(rest[:k])
+								count += int64(m)
+								rest = rest[k:]
+							}
+						default:
+							rest := data
+							if wy.prefix {
+								var m int
+								m, err = w.Write(data[:len(data)/2])
+								count += int64(m)
+								rest = data[len(data)/2:]
+							}
+							if err == nil {
+								var m int64
+								if rf, ok := w.(io.ReaderFrom); ok && wy.in == inReadFrom {
+									m, err = rf.ReadFrom(wy.src.mk(rest))
+								} else {
+									// no ReadFrom: io.Copy is what a caller has (for inReadFrom too)
+									m, err = io.Copy(w, wy.src.mk(rest))
+								}
+								count += m
+							}
+						}
+						cerr := w.Close()
+						if wy.prefix && err != nil {
+							// Write followed by ReadFrom on one writer is refused by some writers (pierrec lz4: ReadFrom
+							// only as the first operation, "unhandled state"). The property speaks of partitions into
+							// Write calls; a refusal that is REPORTED loses nothing silently: recorded as an outcome of
+							// its own, not a violation. (Without the Write in front an error is a violation.)
+							return key + ":write-then-readfrom-refused", nil
+						}
+						if err != nil || cerr != nil {
+							return fail("error", "error %v, Close: %v", err, cerr)
+						}
+						enc := append([]byte{}, buf.Bytes()...)
+						dec, derr := refwire.Decompress(cv.ref, enc)
+						r := cv.codec.NewReader(bytes.NewReader(enc))
+						got, gerr := readChunks(r, len(data)+10, 0)
+						r.Close()
+						if count != int64(len(data)) {
+							return fail("short-count", "reported %d bytes taken and no error (Close: nil); the stream decodes to %d bytes (reference decoder, err=%v) / %d bytes (library reader, err=%v)", count, len(dec), derr, len(got), gerr)
+						}
+						if derr != nil || !bytes.Equal(dec, data) {
+							return fail("lost-data", "no error, count %d, but the reference decoder gets %d bytes out of the stream (err=%v), first difference at %d", count, len(dec), derr, firstDiff(dec, data))
+						}
+						if gerr != nil || !bytes.Equal(got, data) {
+							return fail("lost-data", "no error, count %d, but the library reader gets %d bytes out of the stream (err=%v), first difference at %d", count, len(got), gerr, firstDiff(got, data))
+						}
+						return key, nil
+					})
+				}
+			}
+		}
+	}
+}
